@@ -188,4 +188,63 @@ theorem act_nu (c : Ctx) (i : Nat) (st : St) (hi : i ≠ 1) : NU (act c i st) :=
   | 45 => exact act45_nu c st
   | _ + 46 => exact Only.ok _
 
+/-! ### `execFrom` -/
+
+theorem execFrom_nil (c : Ctx) (st : St) : execFrom c st [] = .ok st := rfl
+
+theorem execFrom_cons (c : Ctx) (st : St) (t : Tok) (rest : List Tok) :
+    execFrom c st (t :: rest) = step c st t >>= fun st' => execFrom c st' rest := rfl
+
+/-- `Execute()` over a concatenation: first the one, then — if it did not panic — the other -/
+theorem execFrom_append (c : Ctx) : ∀ (t1 t2 : List Tok) (st : St),
+    execFrom c st (t1 ++ t2) = execFrom c st t1 >>= fun st' => execFrom c st' t2 := by
+  intro t1
+  induction t1 with
+  | nil => intro t2 st; rfl
+  | cons t rest ih =>
+    intro t2 st
+    rw [List.cons_append, execFrom_cons, execFrom_cons]
+    cases hs : step c st t with
+    | error e => rfl
+    | ok st' => exact ih t2 st'
+
+theorem step_nu (c : Ctx) (st : St) (t : Tok) (h : t ≠ .action 1) : NU (step c st t) := by
+  cases t with
+  | text b e => exact Only.ok _
+  | action i =>
+    have : i ≠ 1 := fun hi => h (by rw [hi])
+    exact act_nu c i st this
+
+/-- a token list without Action1 cannot raise `unrecognized input` -/
+theorem execFrom_nu (c : Ctx) : ∀ (toks : List Tok) (st : St), Tok.action 1 ∉ toks →
+    NU (execFrom c st toks) := by
+  intro toks
+  induction toks with
+  | nil => intro st _; exact Only.ok _
+  | cons t rest ih =>
+    intro st h
+    rw [execFrom_cons]
+    refine Only.bind _ _ (step_nu c st t ?_) (fun st' => ih st' ?_)
+    · intro ht; exact h (by rw [ht]; exact List.mem_cons_self)
+    · intro hm; exact h (List.mem_cons_of_mem _ hm)
+
+/-- `exec` fails with whatever `execFrom` fails with, or with the nil root -/
+theorem exec_error (c : Ctx) (toks : List Tok) (e : Stop) (h : exec c toks = .error e) :
+    execFrom c {} toks = .error e ∨ e = .panic .nilRoot := by
+  unfold exec at h
+  cases hx : execFrom c {} toks with
+  | error e' =>
+    rw [hx] at h
+    change Except.error e' = Except.error e at h
+    cases h
+    exact .inl rfl
+  | ok st =>
+    rw [hx] at h
+    change (match st.root with
+      | some (n :: rest) => (Except.ok (n :: rest) : M (List N))
+      | _ => Except.error (Stop.panic Panic.nilRoot)) = Except.error e at h
+    split at h
+    · cases h
+    · cases h; exact .inr rfl
+
 end JPV.Peg
